@@ -626,6 +626,53 @@ def r8(k: Kit) -> None:
               fi.loc(fi.node))
 
 
+def r9(k: Kit) -> None:
+    """Server-side copy-data: short reads are continued, not taken for EOF."""
+    rep = k.rep
+    rep.rule('C12.R9', '_process_copy_data (used by SFTPClient.copy when the '
+             'server supports copy-data): both offsets and the remaining '
+             'length advance by the number of bytes actually read '
+             '(len(data), linear forms), and the loop is left early only '
+             'when a read returned nothing: a short read from the '
+             'application\'s read() is not the end of the file')
+    fi = k.func('sftp.SFTPServerHandler._process_copy_data')
+    g = k.cfg(fi)
+    n = 0
+    for var, sign in (('read_from_offset', 1), ('write_to_offset', 1),
+                      ('read_from_length', -1)):
+        for x in ast.walk(fi.node):
+            if isinstance(x, ast.AugAssign) and dotted(x.target) == var:
+                n += 1
+                lf = linear(x.value)
+                want = {'len(data)': 1}
+                oks = isinstance(x.op, ast.Add if sign > 0 else ast.Sub) and \
+                    lf is not None and \
+                    {kk: v for kk, v in lf.items() if v} == want
+                rep.check(oks, 'C12.R9', key(fi, f'{var} advances by the '
+                                             'bytes read'),
+                          f'{var} {"+" if sign > 0 else "-"}= len(data)',
+                          f'`{norm(x)}`: {var} moves by the requested block '
+                          'size, not by the bytes actually read; after a '
+                          'short read the copy skips / duplicates data',
+                          fi.loc(x))
+    rep.floor('C12.R9', 'copy loop position updates', n, 3)
+    for b in g.nodes:
+        if b.kind == 'stmt' and isinstance(b.ast, ast.Break):
+            w = g.guarded_by(b.id, lambda x: False if x.kind == 'atom' and
+                             dotted(x.ast) == 'data' else (
+                                 True if x.kind == 'atom' and
+                                 isinstance(x.ast, ast.Compare) and
+                                 norm(x.ast) in ('len(data) == 0',)
+                                 else None))
+            rep.check(w is None, 'C12.R9', key(fi, 'loop left only at EOF'),
+                      'break only when the read returned no data',
+                      'the copy loop is left when a read returns fewer bytes '
+                      'than requested: with a server whose read() returns '
+                      'short blocks copy() ends after the first block and '
+                      'reports success', k.loc(fi, b),
+                      g.describe_path(w) if w else None)
+
+
 def run(idx, rep, tier):
     k = Kit(idx, rep)
     rep.assumptions += NOT_DECIDED
@@ -637,3 +684,4 @@ def run(idx, rep, tier):
     r6(k)
     r7(k)
     r8(k)
+    r9(k)
